@@ -118,6 +118,8 @@ CLEAN_KINDS = ['none', 'targets', 'plain', 'aware+plain', 'plain+aware', 'cmd', 
                # ... and that do (documented: called with dryrun=True, responsible for doing nothing)
                'partial-aware', 'object-aware', 'aware-default']
 GROUP = 'g'          # basename of the group task when a case has sub-tasks
+LINKS_TASK = 'zlinks'   # task (outside the model) whose targets are symbolic links / directories, `clean: True`
+LINK_TARGETS = ['lnk-file', 'lnk-emptydir', 'lnk-dir', 'lnk-dangling', 'rd-empty', 'rd-full']
 DB_SUFFIX = {'json': {''}, 'dbm': {'.dat', '.dir', '.bak'}, 'sqlite3': {'', '-journal', '-wal', '-shm'}}
 
 
@@ -147,6 +149,8 @@ class C20World(statuslib.World):
         self.probe_out = {}
         self.in_probe = False
         C20World.last = self
+        if (self.case or {}).get('zlinks'):
+            make_link_fixtures()
 
     def namespace(self):
         world = self
@@ -256,6 +260,11 @@ class C20World(statuslib.World):
             task_g.__name__ = 'task_' + GROUP
             ns = dict([('task_' + GROUP, task_g)] + list(ns.items())) if (self.case or {}).get('group_first', True) \
                 else dict(list(ns.items()) + [('task_' + GROUP, task_g)])
+        if (self.case or {}).get('zlinks'):
+            # a task outside the model (no action, `clean: True`) whose targets are symbolic links and directories
+            def task_zlinks():
+                return {'actions': None, 'targets': list(LINK_TARGETS), 'clean': True, 'doc': 'links and directories'}
+            ns['task_' + LINKS_TASK] = task_zlinks
         return ns
 
     # -- sub-tasks: a naming layer.  Task i of a case with 'group': [..i..] is the sub-task `g:t<i>` of the group task
@@ -295,13 +304,13 @@ class C20World(statuslib.World):
         return out
 
     def doit(self, argv, reporter=None):
-        if not self.group():
+        if not self.group() and not (self.case or {}).get('zlinks'):
             return super(C20World, self).doit(argv, reporter)
         inner = statuslib.RecordingReporter() if reporter is not None else None
         code, out, err = super(C20World, self).doit(self.translate(list(argv)), inner)
         if reporter is not None:
             reporter.events = [(k, None if n is None else n.split(':', 1)[-1], i) for k, n, i in inner.events
-                               if n != GROUP]
+                               if n not in (GROUP, LINKS_TASK)]
         unname = lambda text: re.sub(r'\b%s:(t\d+)\b' % GROUP, r'\1', text)   # noqa: E731
         return code, unname(out), unname(err)
 
@@ -436,17 +445,44 @@ def raw_keys(world):
         return ['exc:' + type(ex).__name__]
 
 
+def make_link_fixtures():
+    """in the current (scratch) directory: symbolic links to a file, to an empty directory, to a non-empty directory,
+    to nothing; a real empty and a real non-empty directory -- the targets of task `zlinks`"""
+    os.mkdir('ld-empty')
+    os.mkdir('ld-full')
+    os.mkdir('rd-empty')
+    os.mkdir('rd-full')
+    for n in ('ld-full/x', 'rd-full/x', 'lf-file'):
+        with open(n, 'w') as f:
+            f.write('x')
+        os.utime(n, ns=(900 * statuslib.NS, 900 * statuslib.NS))
+    os.symlink('lf-file', 'lnk-file')
+    os.symlink('ld-empty', 'lnk-emptydir')
+    os.symlink('ld-full', 'lnk-dir')
+    os.symlink('nowhere', 'lnk-dangling')
+
+
+def tree_entry(name):
+    """a link is its destination string (never followed), a directory its entries (recursively), a file digest+mtime"""
+    if os.path.islink(name):
+        return ['link', os.readlink(name)]
+    if os.path.isdir(name):
+        return ['dir', [[n, tree_entry(os.path.join(name, n))] for n in sorted(os.listdir(name))]]
+    with open(name, 'rb') as f:
+        data = f.read()
+    return [hashlib.sha1(data).hexdigest()[:12], os.stat(name).st_mtime_ns]
+
+
 def raw_fingerprint():
     """bytes of every file of the directory (DB files: content only -- `clean` re-dumps an unchanged json DB; other
     files: content and mtime).  Equal fingerprints imply equal snapshots, so the logical dump can be skipped."""
     out = []
     for name in sorted(os.listdir('.')):
-        if os.path.isdir(name):
-            out.append((name, 'dir'))
-            continue
-        with open(name, 'rb') as f:
-            data = f.read()
-        out.append((name, hashlib.sha1(data).hexdigest(), None if name.startswith('deps-') else os.stat(name).st_mtime_ns))
+        if name.startswith('deps-') and not os.path.islink(name) and os.path.isfile(name):
+            with open(name, 'rb') as f:
+                out.append((name, hashlib.sha1(f.read()).hexdigest()))
+        else:
+            out.append((name, tree_entry(name)))
     return out
 
 
@@ -467,12 +503,7 @@ def snapshot(world, like=None):
         if name.startswith(world.db):
             dbfiles.append(name)
             continue
-        if os.path.isdir(name):
-            files[name] = 'dir'
-            continue
-        with open(name, 'rb') as f:
-            data = f.read()
-        files[name] = [hashlib.sha1(data).hexdigest()[:12], os.stat(name).st_mtime_ns]
+        files[name] = tree_entry(name)
     try:
         db = world.dump()
     except Exception as ex:  # noqa
@@ -587,7 +618,7 @@ def run_probe(world, spec):
     def fresh():
         n[0] += 1
         d = os.path.join(parent, '%s-p%d-%d' % (os.path.basename(base), world.n_dump, n[0]))
-        shutil.copytree(base, d)
+        shutil.copytree(base, d, symlinks=True)
         return d
 
     try:
@@ -976,7 +1007,7 @@ def compare_probe(case, i, pr, m, out, checks, check_tags):
             out.count('clean:dryrun-aware-action-called-with-dryrun')
         # ---------------- (K) write trace
         r['calls'] = [[c[0], c[1].split(':', 1)[-1] if isinstance(c[1], str) else c[1]] for c in r['calls']
-                      if c[1] != GROUP]          # sub-task names back to task indices; the group task is not modelled
+                      if c[1] not in (GROUP, LINKS_TASK)]   # sub-task names back to indices; g / zlinks are not modelled
         writes = [c for c in r['calls'] if c[0] in ('set', 'remove', 'remove_all')]
         dumps = [c for c in r['calls'] if c[0] == 'dump']
         if dumps and argv[0] != 'clean':
@@ -1088,6 +1119,9 @@ def render(case):
     if case.get('group'):
         out.insert(1, 'group task g with sub-tasks %s (named g:t<i> on the command line; `ignore` of all of them is '
                       'issued as `doit ignore g`)' % ', '.join('g:' + tname(t) for t in sorted(case['group'])))
+    if case.get('zlinks'):
+        out.append('task zlinks (no action, clean: True) with targets lnk-file -> file, lnk-emptydir -> empty dir, '
+                   'lnk-dir -> non-empty dir, lnk-dangling, rd-empty/ (real empty dir), rd-full/ (real non-empty dir)')
     if any(v != 'none' for v in kinds.values()):
         out.append('clean attributes: ' + ', '.join('t%s=%s' % kv for kv in sorted(kinds.items()) if kv[1] != 'none'))
     for pos, spec in case.get('probes', []):
@@ -1206,6 +1240,8 @@ def gen_case(rng):
             defs[op[1]] = op[2]
     for t in range(ntasks):
         defs.setdefault(t, {'deps': [], 'targets': [], 'uptodate': []})
+    if rng.random() < 0.35:
+        case['zlinks'] = True
     if ntasks >= 2 and rng.random() < 0.4:
         case['group'] = sorted(rng.sample(range(ntasks), rng.randint(1 if ntasks == 2 else 2, ntasks)))
     if rng.random() < 0.7:
@@ -1257,6 +1293,7 @@ def exhaustive_cases(maxlen):
                 ['help', 't0'], ['tabcompletion', '--hardcode-tasks'], ['dumpdb', '--db-file', '{db}']]
         out.append({'backend': statuslib.BACKENDS[n % 3], 'checker': checker, 'ntasks': 1, 'npaths': 3, 'ops': ops,
                     'word': w, 'scramble': (n % 4) * 1237, 'clean': {'0': CLEAN_KINDS[n % len(CLEAN_KINDS)]},
+                    'zlinks': n % 2 == 0,
                     'probes': [[-1, {'cmds': cmds}]]})
     return out
 
@@ -1314,8 +1351,9 @@ def expand_corpus():
 
 
 def case_key(case):
-    return {k: case.get(k) for k in ('backend', 'checker', 'ntasks', 'npaths', 'ops', 'clean', 'probes', 'scramble', 'group')
-            if k != 'group' or case.get('group')}
+    return {k: case.get(k) for k in ('backend', 'checker', 'ntasks', 'npaths', 'ops', 'clean', 'probes', 'scramble', 'group',
+                                     'zlinks')
+            if k not in ('group', 'zlinks') or case.get(k)}
 
 
 # ----------------------------------------------------------------------------------------------
@@ -1337,6 +1375,7 @@ def process_batch(batch):
         st.count('backend:' + case['backend'])
         st.count('checker0:' + case['checker'])
         st.count('tasks:%d' % case['ntasks'])
+        st.count('link-targets:%s' % ('yes' if case.get('zlinks') else 'no'))
         st.count('sub-tasks:%s' % ('group of %d' % len(case['group']) if case.get('group') else 'none'))
         for op in case['ops']:
             st.count('op:' + op[0])
